@@ -210,8 +210,8 @@ theorem good_func (useHex : Int → Bool) (fn : Func) (h : wfSyn fn = true) (hmd
   obtain ⟨f', rfl⟩ : ∃ f', f = f' + 1 := ⟨f - 1, by omega⟩
   have hrf := readFunc_print useHex fn h hmd
   have h' := h
-  simp only [wfSyn, Bool.and_eq_true, List.all_eq_true] at h'
-  have hlab : ∀ b ∈ fn.blocks, identOK b.label := fun b hb => (blockOKB_sound b (h'.1.1.1.2 b hb)).1
+  simp only [wfSyn, wfSyn0, Bool.and_eq_true, List.all_eq_true] at h'
+  have hlab : ∀ b ∈ fn.blocks, identOK b.label := fun b hb => (blockOKB_sound b (h'.1.1.1.1.2 b hb)).1
   by_cases hbl : fn.blocks = []
   · -- a declaration: one line
     have hp : printFunc useHex fn = [declString fn] := by simp [printFunc, hbl]
@@ -219,7 +219,7 @@ theorem good_func (useHex : Int → Bool) (fn : Func) (h : wfSyn fn = true) (hmd
     have hrest := hT f' (by simp only [List.length_append, List.length_cons, List.length_nil] at hf; omega)
     obtain ⟨tl, hd⟩ : ∃ tl, declString fn = 100 :: tl := ⟨_, by simp [declString, Core3.sDeclare]; rfl⟩
     have hs : (stripPrefix Core3.sDeclare (declString fn)).isSome = true := by
-      have e : declString fn = Core3.sDeclare ++ (flagsString kLead fn.lead ++ tyString fn.ret ++ [32] ++ Enc.globalName fn.name ++ [40] ++ paramsString fn.params ++ [41] ++ tailDecl (itemsOf fn.tail)) := by
+      have e : declString fn = Core3.sDeclare ++ (flagsString kLead fn.lead ++ tyString fn.ret ++ [32] ++ Enc.globalName fn.name ++ [40] ++ paramsString (zipA fn.params fn.pattrs) ++ [41] ++ tailDecl (itemsOf fn.tail)) := by
         simp [declString]
       rw [e, stripPrefix, TyParse.stripPrefix_append]; rfl
     simp only [List.singleton_append]
